@@ -77,10 +77,40 @@ def check_learn(chk, rep, repo):
     by_stmt = {}
     for e in stores:
         by_stmt.setdefault(id(e.stmt), []).append(e)
+    # an exchange through temporaries: `t = A.copy(); A = B; B = t` is the two-sided statement `A, B = B, A.copy()` when
+    # the temporary was taken before A was overwritten (the walker marks such a value as a snapshot)
+    import dataclasses
+    unold = lambda t: (t[1], True) if t[0] == "old" else (t, False)
+    staged = []
+    used = set()
+    for a in stores:
+        for b in stores:
+            if a.seq < b.seq and id(a.stmt) != id(b.stmt) and a.seq not in used and b.seq not in used \
+                    and a.guards == b.guards and a.loops == b.loops:
+                vb0, snap = unold(b.value)
+                vb, _ = strip_copy(vb0)
+                if not snap:
+                    # the second half hands over a local that was bound before the first half ran
+                    import ast as _ast
+                    src = b.stmt.value if isinstance(b.stmt, _ast.Assign) else None
+                    if isinstance(src, _ast.Tuple) and (b.name or "").startswith("tuple"):
+                        src = src.elts[int(b.name[5:].split("/")[0])]
+                    if isinstance(src, _ast.Name):
+                        binds = [e for e in w.events if e.kind == "bind" and e.name == src.id and e.seq < b.seq and e.fn is b.fn]
+                        snap = bool(binds) and binds[-1].seq < a.seq
+                if strip_copy(a.value)[0] == b.target and vb == a.target:
+                    used |= {a.seq, b.seq}
+                    staged.append((a, dataclasses.replace(b, value=vb0), snap))
+    if staged and len(used) == len(stores):
+        by_stmt = {k: [a, b] for k, (a, b, _) in enumerate(staged)}
+        for a, b, snap in staged:
+            rep.ev("L1-staged", b, snap,
+                   "" if snap else f"'{show(b.value)[:60]}' is read after the first half of the exchange has overwritten it: "
+                   "both cells end up with the same sample")
     pairs = {}
     for sid, evs in by_stmt.items():
         first = evs[0]
-        ok_shape = len(evs) == 2 and all((e.name or "").startswith("tuple") for e in evs)
+        ok_shape = len(evs) == 2 and (all((e.name or "").startswith("tuple") for e in evs) or bool(staged))
         rep.ev("L2-exchange", first, ok_shape,
                "the caller's arrays may only be modified by two-sided exchange statements" if not ok_shape else "")
         if not ok_shape:
@@ -266,6 +296,16 @@ def check_predict_tracking(chk, rep, repo):
         defined = (("cmp", "<", ("const", -1), after), ("cmp", "<=", ("const", 0), after),
                    ("cmp", "!=", *sorted([("const", -1), after], key=repr)), ("cmp", "!=", ("const", -1), after),
                    ("cmp", "!=", *sorted([("K", "NIL"), after], key=repr)), ("cmp", "<", ("K", "NIL"), after))
+        def in_range(f):
+            """`conqueror < n_nodes` / `conqueror <= n_nodes - 1`: holds for every node position of the training graph."""
+            from ..kinds import count_of
+            from ..rules_heap import _sub, lin, lin_eq
+            if f[0] == "cmp" and f[1] in ("<", "<=") and f[2] == after:
+                for n in (("attr", G, "n_nodes"), ("call", ("builtin", "len"), (("attr", G, "nodes"),), ())):
+                    if lin_eq(_sub(lin(f[3]), lin(n)), {} if f[1] == "<" else {1: -1}):
+                        return True
+            return False
+
         def seen_once(f):
             """`if c not in seen: seen.add(c); mark(c)` with `seen` a set created in this call: marking (which only sets
             flags, rule P2) is skipped exactly for conquerors it was already applied to."""
@@ -278,7 +318,7 @@ def check_predict_tracking(chk, rep, repo):
             adds = [e for e in uses if e.name == "add" and e.args == (after,) and e.guards == marks[0].guards
                     and e.loops == marks[0].loops]
             return len(made) == 1 and not made[0].loops and len(adds) == 1 and len(uses) == 1
-        ok = all(f in defined or seen_once(f) for f in extra)
+        ok = all(f in defined or in_range(f) or seen_once(f) for f in extra)
     rep.fn("P1-mark", fn, "mark_nodes(conqueror) is called once per predicted sample", ok,
            "relevance marking must be applied to the conqueror of every sample (only a definedness test may guard it)",
            line=li.line)
@@ -291,6 +331,20 @@ def check_mark_nodes(chk, rep, repo):
     G = ("self",)
     ip = ("param", fn.params[1])
     loops = [li for li in w.loops.values() if li.kind == "while"]
+    if not loops:
+        # `for _ in range(n_nodes): ... break`: a path of the forest has at most n_nodes nodes, so the bound is never
+        # what ends the walk - the loop is `while True` with the same breaks
+        from ..kinds import count_of
+        from ..ir import subterms as _st
+        for li in w.loops.values():
+            d = li.domain
+            if li.kind == "for" and not li.loops and d is not None and d[0] == "call" and d[1] == ("builtin", "range") \
+                    and len(d[2]) == 1 and not d[3] and count_of(d[2][0]) == ("self",):
+                it = ("iter", d, li.lid)
+                used = any(it in _st(x) for e in w.events for x in [e.target, e.value, *(e.args or ()), *[g for g, _ in e.guards]]
+                           if x is not None)
+                if not used:
+                    loops.append(li)
     ok = False
     detail = "expected: while nodes[i].pred != NIL: mark i; i = nodes[i].pred; then mark the terminal node"
     if len(loops) == 1:
@@ -310,7 +364,7 @@ def check_mark_nodes(chk, rep, repo):
                 head, step_ok, walker = ph, True, name  # reference walk: node = nodes[node.pred]
         from ..ir import conj, facts, mk_not
         cont = ("cmp", "!=", *sorted([NIL, ("attr", head, "pred")], key=repr)) if head is not None else None
-        conds = [] if li.cond == ("const", True) else list(conj(li.cond))
+        conds = [] if li.kind == "for" or li.cond == ("const", True) else list(conj(li.cond))
         body_facts = tuple(facts(li.guards)) + tuple(conds)
         breaks = [e for e in w.events if e.kind == "break" and e.loops and e.loops[-1] == li.lid]
         # continuation is decided by `pred != NIL` only: as the loop test (exit before marking: the terminal node
